@@ -1,9 +1,9 @@
-import GitAiModel.Driver.NoteFormat
+import GitAiModel.Driver.All
 open Lean GitAi.Driver
 
 /-- one request per line: a JSON object with an "op" field; one JSON response per line. -/
 def dispatch (op : String) (j : Json) : Except String Json :=
-  match NoteFormatD.handle op j with
+  match handlers.findSome? (fun h => h op j) with
   | some r => r
   | none => .error s!"unknown op {op}"
 
